@@ -53,8 +53,11 @@ def gen_policy(rng, sim, maxdepth=2, p_star=0.08, p_bad=0.04):
         # element, in parentheses it can stand anywhere (e.g. as the LEFT operand of ||)
         if rng.random() < 0.05: return rng.choice(['*', '(*)', '( * )'])
         if dep <= 0 or r < 0.45: return atom()
-        if r < 0.72: return gen(dep - 1) + ' && ' + gen(dep - 1)
-        if r < 0.95: return gen(dep - 1) + ' || ' + gen(dep - 1)
+        # an operand of && that is itself a disjunction is mostly written in parentheses (a real conjunction OF
+        # disjunctions, whose normal form is a product of clause lists of different lengths); disjunctions have 2-4 operands
+        def par(t): return '(' + t + ')' if '||' in t and rng.random() < 0.75 else t
+        if r < 0.72: return par(gen(dep - 1)) + ' && ' + par(gen(dep - 1))
+        if r < 0.95: return ' || '.join(gen(dep - 1) for _ in range(rng.choice([2, 2, 2, 3, 3, 4])))
         return '(' + gen(dep - 1) + ')'
     if rng.random() < p_star: return '*'
     return gen(rng.randint(0, maxdepth))
